@@ -631,7 +631,18 @@ namespace bloch::runtime {
         }
         auto it = m_functions.find("main");
         if (it != m_functions.end()) {
-            call(it->second, {});
+            try {
+                call(it->second, {});
+            } catch (...) {
+                // the run ends here as well: the collector's timer thread must not outlive it
+                if (m_gcThreadStarted) {
+                    m_stopGc = true;
+                    m_gcCv.notify_all();
+                    if (m_gcThread.joinable())
+                        m_gcThread.join();
+                }
+                throw;
+            }
         }
         if (m_gcThreadStarted) {
             BLOCH_VERIF_POINT("execute.end.stop", &m_stopGc);
